@@ -110,19 +110,20 @@ pub struct RowanCheckpoint { pub x: u8 }
 pub open spec fn ignored_syntax(k: SyntaxKind) -> bool { k is COMMENT || k is WHITESPACE || k is COMMA || k is ERROR }
 impl SyntaxTreeBuilder {
     pub uninterp spec fn text(&self) -> Seq<char>;
-    /// number of significant tokens (anything but COMMENT / WHITESPACE / COMMA / ERROR) added so far
-    pub uninterp spec fn nsig(&self) -> nat;
+    /// kinds of the significant tokens (anything but COMMENT / WHITESPACE / COMMA / ERROR) added so far, in order
+    pub uninterp spec fn sig(&self) -> Seq<SyntaxKind>;
+    pub open spec fn nsig(&self) -> nat { self.sig().len() }
     #[verifier::external_body]
     pub fn token(&mut self, kind: SyntaxKind, text: &str)
         ensures final(self).text() == old(self).text() + text@,
-            final(self).nsig() == old(self).nsig() + (if ignored_syntax(kind) { 0nat } else { 1nat }),
+            final(self).sig() == (if ignored_syntax(kind) { old(self).sig() } else { old(self).sig().push(kind) }),
     { unimplemented!() }
     #[verifier::external_body]
-    pub fn start_node(&mut self, kind: SyntaxKind) ensures final(self).text() == old(self).text(), final(self).nsig() == old(self).nsig() { unimplemented!() }
+    pub fn start_node(&mut self, kind: SyntaxKind) ensures final(self).text() == old(self).text(), final(self).sig() == old(self).sig() { unimplemented!() }
     #[verifier::external_body]
     pub fn checkpoint(&self) -> RowanCheckpoint { unimplemented!() }
     #[verifier::external_body]
-    pub fn new() -> (r: Self) ensures r.text() =~= Seq::<char>::empty(), r.nsig() == 0 { unimplemented!() }
+    pub fn new() -> (r: Self) ensures r.text() =~= Seq::<char>::empty(), r.sig() =~= Seq::<SyntaxKind>::empty() { unimplemented!() }
     // finish_*: hand the accumulated errors and limit trackers to the tree, unchanged (syntax_tree.rs; not extracted: rowan)
     #[verifier::external_body]
     pub fn finish_type(self, errors: Vec<Error>, recursion_limit: LimitTracker, token_limit: LimitTracker) -> (r: syntax_tree::SyntaxTreeWrapper)
@@ -178,6 +179,30 @@ pub proof fn lemma_pending_push(p: Seq<PendingToken>, x: PendingToken)
 {
     assert(p.push(x).drop_last() =~= p);
 }
+// https://spec.graphql.org/October2021/#Type  over the kinds of the significant tokens:
+//   Type :: NamedType | ListType | NonNullType      NamedType :: Name      ListType :: [ Type ]      NonNullType :: NamedType ! | ListType !
+pub open spec fn g_nullable_type(s: Seq<SyntaxKind>) -> bool decreases s.len(), 0int {
+    (s.len() == 1 && s[0] is IDENT)
+        || (s.len() >= 3 && s[0] is L_BRACK && s.last() is R_BRACK && g_type(s.subrange(1, s.len() - 1)))
+}
+pub open spec fn g_type(s: Seq<SyntaxKind>) -> bool decreases s.len(), 1int {
+    g_nullable_type(s) || (s.len() >= 2 && s.last() is BANG && g_nullable_type(s.drop_last()))
+}
+pub proof fn lemma_list_type(inner: Seq<SyntaxKind>)
+    requires g_type(inner)
+    ensures g_nullable_type(seq![SyntaxKind::L_BRACK] + inner + seq![SyntaxKind::R_BRACK])
+{
+    let s = seq![SyntaxKind::L_BRACK] + inner + seq![SyntaxKind::R_BRACK];
+    assert(s.subrange(1, s.len() - 1) =~= inner);
+    assert(inner.len() >= 1) by { reveal_with_fuel(g_type, 2); reveal_with_fuel(g_nullable_type, 2); }
+}
+pub proof fn lemma_non_null_type(s: Seq<SyntaxKind>)
+    requires g_nullable_type(s)
+    ensures g_type(s), g_type(s.push(SyntaxKind::BANG))
+{
+    assert(s.push(SyntaxKind::BANG).drop_last() =~= s);
+}
+pub open spec fn sig_prefix(a: Seq<SyntaxKind>, b: Seq<SyntaxKind>) -> bool { a.len() <= b.len() && b.subrange(0, a.len() as int) =~= a }
 pub open spec fn cur_text(t: Option<Token>) -> Seq<char> { match t { Some(t) => t.data@, None => seq![] } }
 pub open spec fn is_prefix(a: Seq<char>, b: Seq<char>) -> bool { a.len() <= b.len() && b.subrange(0, a.len() as int) =~= a }
 pub open spec fn errs_prefix(a: Seq<Error>, b: Seq<Error>) -> bool { a.len() <= b.len() && b.subrange(0, a.len() as int) =~= a }
@@ -209,7 +234,7 @@ impl<'input> Parser<'input> {
         &&& self.advanced(o)
     }
     pub open spec fn advanced(&self, o: &Self) -> bool {
-        &&& self.builder.nsig() >= o.builder.nsig()
+        &&& sig_prefix(o.builder.sig(), self.builder.sig())
         &&& is_prefix(o.builder.text(), self.builder.text())                    // C04 the tree only ever grows at the end
         &&& self.wf()
         &&& self.recursion_limit.current == o.recursion_limit.current           // C04/C01 balanced bookkeeping
@@ -225,6 +250,10 @@ impl<'input> Parser<'input> {
     pub open spec fn ready(&self) -> bool { self.current_token is Some || self.lexer.limited() || self.lexer.done() }
     /// the EOF token has been consumed (only an error path does that)
     pub open spec fn eof_consumed(&self) -> bool { self.lexer.done() && self.current_token is None }
+    /// the significant token kinds added to the tree since state `o`
+    pub open spec fn new_sig(&self, o: &Self) -> Seq<SyntaxKind> { self.builder.sig().skip(o.builder.sig().len() as int) }
+    /// since state `o`: no error was recorded, errors are still being accepted, and EOF had not been consumed at `o`
+    pub open spec fn clean_since(&self, o: &Self) -> bool { !o.eof_consumed() && self.errors@.len() == o.errors@.len() && self.accept_errors }
     /// C07: nothing but ignored tokens (already queued) is left in the input
     pub open spec fn at_end(&self) -> bool {
         self.current_token is None || self.current_token->0.kind is Eof
@@ -234,6 +263,7 @@ pub proof fn lemma_conserved_trans(a: &Parser, b: &Parser, c: &Parser)
     requires b.conserved(a), c.conserved(b)
     ensures c.conserved(a)
 {
+    assert(c.builder.sig().subrange(0, a.builder.sig().len() as int) =~= b.builder.sig().subrange(0, a.builder.sig().len() as int));
     lemma_prefix_trans(a.builder.text(), b.builder.text(), c.builder.text());
     assert(c.errors@.subrange(0, a.errors@.len() as int) =~= b.errors@.subrange(0, a.errors@.len() as int));
 }
@@ -241,6 +271,7 @@ pub proof fn lemma_advanced_trans(a: &Parser, b: &Parser, c: &Parser)
     requires b.advanced(a), c.advanced(b)
     ensures c.advanced(a)
 {
+    assert(c.builder.sig().subrange(0, a.builder.sig().len() as int) =~= b.builder.sig().subrange(0, a.builder.sig().len() as int));
     lemma_prefix_trans(a.builder.text(), b.builder.text(), c.builder.text());
     assert(c.errors@.subrange(0, a.errors@.len() as int) =~= b.errors@.subrange(0, a.errors@.len() as int));
 }
@@ -269,6 +300,7 @@ pub proof fn lemma_conserved_refl(a: &Parser)
 {
     assert(a.builder.text().subrange(0, a.builder.text().len() as int) =~= a.builder.text());
     assert(a.errors@.subrange(0, a.errors@.len() as int) =~= a.errors@);
+    assert(a.builder.sig().subrange(0, a.builder.sig().len() as int) =~= a.builder.sig());
 }
 
 // grammar functions outside this unit that the extracted bodies call (closure-driven, not extractable):
@@ -336,6 +368,7 @@ PEEK_POST = [
     ("ensures", "none_means_exhausted", "r is None ==> (final(self).lexer.limited() || (final(self).lexer.done() && final(self).lexer.rest() =~= Seq::<char>::empty()))"),
     ("ensures", "eof_is_last", "r is None ==> final(self).lexer.done() == old(self).lexer.done() && old(self).current_token is None"),
     ("ensures", "exhausted_is_stable", "(old(self).current_token is None && (old(self).lexer.limited() || old(self).lexer.done())) ==> r is None && *final(self) == *old(self)"),
+    ("ensures", "eof_not_consumed", "!old(self).eof_consumed() ==> !final(self).eof_consumed()"),
 ]
 
 lim = [p for p in LIMITS_UNIT["parts"] if isinstance(p, dict) and p.get("container") == "LimitTracker" or (isinstance(p, dict) and p.get("name") == "LimitTracker")]
@@ -382,7 +415,7 @@ UNIT = {
            hints=[("body_start", None, "proof { assert(old(self).errors@.push(err).subrange(0, old(self).errors@.len() as int) =~= old(self).errors@); lemma_conserved_refl(&*old(self)); }")]),
         P("push_token", [WF,
             ("ensures", "text_appended", "final(self).builder.text() == old(self).builder.text() + token.data@"),
-            ("ensures", "significant_count", "final(self).builder.nsig() == old(self).builder.nsig() + (if ignored_syntax(kind) { 0nat } else { 1nat })"),
+            ("ensures", "significant_kinds", "final(self).builder.sig() == (if ignored_syntax(kind) { old(self).builder.sig() } else { old(self).builder.sig().push(kind) })"),
             ("ensures", "frame", "final(self).pending == old(self).pending && final(self).current_token == old(self).current_token && final(self).lexer == old(self).lexer && final(self).recursion_limit == old(self).recursion_limit && final(self).errors == old(self).errors && final(self).accept_errors == old(self).accept_errors"),
            ], rewrites=BORROW),
         P("pop", [WF,
@@ -435,6 +468,7 @@ UNIT = {
         P("at", [WF, ("ensures", "conserved", C), ("ensures", "tree_untouched", "final(self).builder == old(self).builder"), ("ensures", "fuel", F),
                  ("ensures", "result", "r <==> (final(self).current_token is Some && final(self).current_token->0.kind == token)"),
                  ("ensures", "lookahead_stable", "old(self).current_token is Some ==> final(self).current_token == old(self).current_token && final(self).pending == old(self).pending && final(self).lexer == old(self).lexer && final(self).errors == old(self).errors && final(self).accept_errors == old(self).accept_errors"),
+                 ("ensures", "eof_not_consumed", "!old(self).eof_consumed() ==> !final(self).eof_consumed()"),
                  ]),
         P("skip_ignored", [WF, ("ensures", "queue_kept_before_significant_lookahead", "(old(self).current_token is Some && !ignored_kind(old(self).current_token->0.kind)) ==> final(self).pending == old(self).pending"), ("ensures", "conserved", C), ("ensures", "tree_untouched", "final(self).builder == old(self).builder"), ("ensures", "fuel", F),
                            ("ensures", "stops_at_significant", "final(self).current_token is Some ==> !ignored_kind(final(self).current_token->0.kind)"), KEEP,
@@ -455,7 +489,7 @@ UNIT = {
         P("push_ignored", [WF, ("ensures", "conserved", C), ("ensures", "queue_flushed", "final(self).pending@.len() == 0"),
                            ("ensures", "frame", "final(self).current_token == old(self).current_token && final(self).lexer == old(self).lexer && final(self).errors == old(self).errors && final(self).accept_errors == old(self).accept_errors && final(self).recursion_limit == old(self).recursion_limit"),
                            ("ensures", "flushed_into_tree", "final(self).builder.text() =~= old(self).builder.text() + pending_text(old(self).pending@)"),
-                           ("ensures", "only_ignored_tokens_flushed", "final(self).builder.nsig() == old(self).builder.nsig()"),
+                           ("ensures", "only_ignored_tokens_flushed", "final(self).builder.sig() == old(self).builder.sig()"),
                            ("ensures", "fuel", "final(self).fuel() == old(self).fuel()")],
           n_loops=1,
           rewrites=BORROW + [("for item in pending {", "for item in it: pending {", 1)],
@@ -463,7 +497,7 @@ UNIT = {
               ("queue_taken", "self.pending@.len() == 0, pending_wf(old(self).pending@), self.wf()"),
               ("iterator", "vstd::std_specs::vec::into_iter_elts(it.snapshot@) == old(self).pending@, 0 <= it.index@ <= old(self).pending@.len(), it.history@ =~= old(self).pending@.take(it.index@ as int)"),
               ("flushed_prefix", "self.builder.text() =~= old(self).builder.text() + pending_text(old(self).pending@.take(it.index@ as int))"),
-              ("only_ignored_tokens_flushed", "self.builder.nsig() == old(self).builder.nsig()"),
+              ("only_ignored_tokens_flushed", "self.builder.sig() == old(self).builder.sig()"),
               ("frame", "self.current_token == old(self).current_token, self.lexer == old(self).lexer, self.recursion_limit == old(self).recursion_limit, self.errors == old(self).errors, self.accept_errors == old(self).accept_errors"),
           ])],
           hints=[
@@ -478,9 +512,10 @@ UNIT = {
         P("eat", [WF, READY, ("ensures", "conserved", C),
                   ("ensures", "fuel", "final(self).fuel() <= old(self).fuel() && (old(self).current_token is Some ==> final(self).fuel() < old(self).fuel())"),
                   ("ensures", "errors_untouched", "final(self).errors == old(self).errors && final(self).accept_errors == old(self).accept_errors"),
-                  ("ensures", "significant_count", "final(self).builder.nsig() == old(self).builder.nsig() + (if old(self).current_token is Some && !ignored_syntax(kind) { 1nat } else { 0nat })"),
+                  ("ensures", "significant_kinds", "final(self).builder.sig() == (if old(self).current_token is Some && !ignored_syntax(kind) { old(self).builder.sig().push(kind) } else { old(self).builder.sig() })"),
                   ("ensures", "consumes_lookahead", "old(self).current_token is Some ==> final(self).current_token is None && final(self).pending@.len() == 0 && final(self).lexer == old(self).lexer && final(self).builder.text() =~= old(self).builder.text() + pending_text(old(self).pending@) + old(self).current_token->0.data@"),
-                  ("ensures", "nothing_to_consume", "old(self).current_token is None ==> final(self).current_token is None && final(self).lexer == old(self).lexer")],
+                  ("ensures", "nothing_to_consume", "old(self).current_token is None ==> final(self).current_token is None && final(self).lexer == old(self).lexer"),
+                  ("ensures", "eof_not_consumed", "(!old(self).eof_consumed() && !(old(self).current_token is Some && old(self).current_token->0.kind is Eof)) ==> !final(self).eof_consumed()")],
           hints=[("before", "if self.current().is_none() {", "let ghost s1 = *self;"),
                  ("before", "let token = self.pop();", "let ghost s2 = *self; proof { lemma_conserved_trans(&*old(self), &s1, &s2); assert(s2.pending@.len() == 0); }"),
                  ("body_end", None, "proof { let a = s2.builder.text(); lemma_prefix_append(a, token.data@); lemma_prefix_trans(old(self).builder.text(), a, self.builder.text());\n"
@@ -489,11 +524,13 @@ UNIT = {
                    ("ensures", "fuel", "final(self).fuel() <= old(self).fuel() && (old(self).current_token is Some ==> final(self).fuel() < old(self).fuel())"),
                    ("ensures", "stops_at_significant", "final(self).current_token is Some ==> !ignored_kind(final(self).current_token->0.kind)"),
                    ("ensures", "ready_again", "final(self).ready()"),
-                   ("ensures", "significant_count", "final(self).builder.nsig() == old(self).builder.nsig() + (if old(self).current_token is Some && !ignored_syntax(kind) { 1nat } else { 0nat })")],
+                   ("ensures", "eof_not_consumed", "(!old(self).eof_consumed() && !(old(self).current_token is Some && old(self).current_token->0.kind is Eof)) ==> !final(self).eof_consumed()"),
+                   ("ensures", "significant_kinds", "final(self).builder.sig() == (if old(self).current_token is Some && !ignored_syntax(kind) { old(self).builder.sig().push(kind) } else { old(self).builder.sig() })")],
           hints=[("after", "self.eat(kind);", "let ghost s1 = *self;"),
                  ("body_end", None, "proof { lemma_conserved_trans(&*old(self), &s1, &*self); }")]),
         P("limit_err", [WF, ("ensures", "conserved", C), ("ensures", "fuel", F),
                         ("ensures", "limit_recorded", "final(self).current_token is Some ==> !final(self).accept_errors"),
+                        ("ensures", "limit_always_recorded_before_eof", "!old(self).eof_consumed() ==> !final(self).accept_errors"), ("ensures", "eof_not_consumed", "!old(self).eof_consumed() ==> !final(self).eof_consumed()"),
                         ("ensures", "tree_untouched", "final(self).builder == old(self).builder")],
           rewrites=[("pub fn limit_err<S: Into<String>>(&mut self, message: S)", "pub fn limit_err(&mut self, message: &str)", 1)],
           hints=[("before", "self.push_err(err);", "let ghost s1 = *self;"),
@@ -516,28 +553,30 @@ UNIT = {
                  ("after", "self.push_err(err);", "let ghost s4 = *self; proof { lemma_conserved_trans(&*old(self), &s3, &s4); }"),
                  ("body_end", None, "proof { lemma_conserved_trans(&*old(self), &s4, &*self); }")]),
         P("expect", [WF, ("ensures", "conserved", C), ("ensures", "fuel", F),
-                     ("ensures", "error_unless_expected", "(old(self).accept_errors && final(self).errors@.len() == old(self).errors@.len() && final(self).accept_errors) ==> (final(self).builder.text().len() >= old(self).builder.text().len())")],
+                     ("ensures", "consumes_the_expected_token_or_reports", "final(self).clean_since(old(self)) ==> final(self).builder.sig() == (if ignored_syntax(kind) { old(self).builder.sig() } else { old(self).builder.sig().push(kind) })"),
+                     ("ensures", "adds_at_most_that_token", "final(self).builder.sig() == old(self).builder.sig() || final(self).builder.sig() == old(self).builder.sig().push(kind)"),
+                     ("ensures", "eof_not_consumed", "(!old(self).eof_consumed() && !(token is Eof)) ==> !final(self).eof_consumed()")],
           hints=[("before", "if self.at(token) {", "let ghost s1 = *self;"),
                  ("after", "if self.at(token) {", "let ghost s2 = *self; proof { lemma_conserved_trans(&*old(self), &s1, &s2); }"),
                  ("after", "self.bump(kind);", "proof { lemma_conserved_trans(&*old(self), &s2, &*self); }"),
                  ("before", "let err = if is_eof {", "let ghost s3 = *self; proof { lemma_conserved_trans(&*old(self), &s1, &s3); }"),
                  ("body_end", None, "proof { lemma_conserved_trans(&*old(self), &s3, &*self); }")]),
-        P("start_node", [WF, ("ensures", "conserved", C), ("ensures", "fuel", F), KEEP, FLUSH, ("ensures", "ready", "final(self).ready()"),
+        P("start_node", [WF, ("ensures", "conserved", C), ("ensures", "fuel", F), KEEP, FLUSH, ("ensures", "ready", "final(self).ready()"), ("ensures", "eof_not_consumed", "!old(self).eof_consumed() ==> !final(self).eof_consumed()"), ("ensures", "no_significant_token_added", "final(self).builder.sig() == old(self).builder.sig()"),
                          ("ensures", "stops_at_significant", "final(self).current_token is Some ==> !ignored_kind(final(self).current_token->0.kind)")],
           rewrites=BORROW + [("NodeGuard::new(self.builder.clone())", "NodeGuard::new_shim()", 1)],
           hints=[("after", "self.push_ignored();", "let ghost s1 = *self;"),
                  ("before", "self.skip_ignored();", "let ghost s2 = *self; proof { assert(s2.conserved(&s1)) by { lemma_conserved_refl(&s1); }; lemma_conserved_trans(&*old(self), &s1, &s2); }"),
                  ("after", "self.skip_ignored();", "proof { lemma_conserved_trans(&*old(self), &s2, &*self); }")]),
-        P("start_root_node", [WF, ("ensures", "conserved", C), ("ensures", "fuel", F), KEEP, FLUSH, ("ensures", "ready", "final(self).ready()"),
+        P("start_root_node", [WF, ("ensures", "conserved", C), ("ensures", "fuel", F), KEEP, FLUSH, ("ensures", "ready", "final(self).ready()"), ("ensures", "eof_not_consumed", "!old(self).eof_consumed() ==> !final(self).eof_consumed()"), ("ensures", "no_significant_token_added", "final(self).builder.sig() == old(self).builder.sig()"),
                               ("ensures", "stops_at_significant", "final(self).current_token is Some ==> !ignored_kind(final(self).current_token->0.kind)")],
           rewrites=BORROW + [("NodeGuard::new(self.builder.clone())", "NodeGuard::new_shim()", 1)],
           hints=[("before", "self.push_ignored();", "let ghost s1 = *self; proof { assert(s1.conserved(old(self))) by { lemma_conserved_refl(&*old(self)); }; }"),
                  ("after", "self.push_ignored();", "let ghost s2 = *self; proof { lemma_conserved_trans(&*old(self), &s1, &s2); }"),
                  ("after", "self.skip_ignored();", "proof { lemma_conserved_trans(&*old(self), &s2, &*self); }")]),
         P("checkpoint_node", [WF, ("ensures", "conserved", C), ("ensures", "fuel", "final(self).fuel() == old(self).fuel()"),
-                              ("ensures", "frame", "final(self).current_token == old(self).current_token && final(self).lexer == old(self).lexer && final(self).errors == old(self).errors && final(self).builder.nsig() == old(self).builder.nsig()")],
+                              ("ensures", "frame", "final(self).current_token == old(self).current_token && final(self).lexer == old(self).lexer && final(self).errors == old(self).errors && final(self).builder.sig() == old(self).builder.sig()")],
           rewrites=[("self.builder.borrow().checkpoint()", "self.builder.checkpoint()", 1), ("Checkpoint::new(self.builder.clone(), checkpoint)", "Checkpoint::new_shim(checkpoint)", 1)]),
-        P("expect_end_of_input", [WF, ("ensures", "conserved", C), ("ensures", "fuel", F),
+        P("expect_end_of_input", [WF, ("ensures", "conserved", C), ("ensures", "fuel", F), ("ensures", "no_significant_token_added", "final(self).builder.sig() == old(self).builder.sig()"),
                                   ("ensures", "no_new_error_only_at_end_of_input", "(final(self).errors@.len() == old(self).errors@.len() && final(self).accept_errors) ==> final(self).at_end()"),
                                   ("ensures", "end_means_exhausted", "final(self).current_token is None ==> (final(self).lexer.limited() || (final(self).lexer.done() && final(self).lexer.rest() =~= Seq::<char>::empty()))")],
           props=["C07"],
@@ -548,42 +587,40 @@ UNIT = {
     
         # ---------------- grammar functions that consume tokens directly ----------------
         dict(file=PM, kind="const", name="DEFAULT_RECURSION_LIMIT"),
-        P("new", [("ensures", "initial_state", "r.wf() && r.all_text() =~= input@ && r.errors@.len() == 0 && r.recursion_limit.current == 0 && r.builder.text() =~= Seq::<char>::empty() && r.current_token is None && r.pending@.len() == 0 && !r.eof_consumed()")],
+        P("new", [("ensures", "initial_state", "r.wf() && r.all_text() =~= input@ && r.errors@.len() == 0 && r.recursion_limit.current == 0 && r.builder.text() =~= Seq::<char>::empty() && r.current_token is None && r.pending@.len() == 0 && !r.eof_consumed() && r.builder.sig() =~= Seq::<SyntaxKind>::empty()")],
           rewrites=[("Rc::new(RefCell::new(SyntaxTreeBuilder::new()))", "SyntaxTreeBuilder::new()", 1)], props=["C02", "C01"]),
         G(TY, "parse", [GWF,
-            ("requires", "lookahead_peeked_or_fresh", "true"),
             ("ensures", "lossless", "final(p).all_text() =~= old(p).all_text()", ["C02"]),
             ("ensures", "advanced", "final(p).advanced(old(p))"),
             ("ensures", "fuel", "final(p).fuel() <= old(p).fuel() && (res is Ok ==> final(p).fuel() < old(p).fuel())"),
-            ("ensures", "ok_consumes_a_significant_token", "(res is Ok ==> final(p).builder.nsig() > old(p).builder.nsig()) && (res is Err ==> final(p).builder.nsig() == old(p).builder.nsig())", ["C07"]),
+            ("ensures", "ok_consumes_a_significant_token", "(res is Ok ==> final(p).builder.nsig() > old(p).builder.nsig()) && (res is Err ==> final(p).builder.sig() == old(p).builder.sig())", ["C07"]),
             ("ensures", "no_token_only_after_limit_or_eof", "(res is Err && res->Err_0 is None) ==> (final(p).lexer.limited() || old(p).eof_consumed())", ["C07"]),
-            ("ensures", "offending_token_is_returned", "(res is Err && res->Err_0 is Some) ==> final(p).accept_errors == old(p).accept_errors || !final(p).accept_errors", ["C07"]),
+            ("ensures", "type_grammar", "(res is Ok && final(p).clean_since(old(p))) ==> g_type(final(p).new_sig(old(p))) && !final(p).eof_consumed()", ["C07"]),
             ("decreases", None, "old(p).fuel()"),
           ], ret="res",
           hints=[
-              ("after", "let checkpoint = p.checkpoint_node();", "let ghost s0 = *p;"),
-              ("before", "let _guard = p.start_node(SyntaxKind::LIST_TYPE);", "let ghost s1 = *p; proof { lemma_conserved_trans(&*old(p), &s0, &s1); }"),
-              ("after", "let _guard = p.start_node(SyntaxKind::LIST_TYPE);", "let ghost s2 = *p; proof { lemma_conserved_trans(&*old(p), &s1, &s2); }"),
-              ("after", "p.bump(S!['[']);", "let ghost s3 = *p; proof { lemma_conserved_trans(&*old(p), &s2, &s3); }"),
-              ("after", "p.limit_err(\"parser recursion limit reached\");", "proof { lemma_conserved_trans(&*old(p), &s3, &*p); }"),
-              ("before", "let result = parse(p);", "let ghost s4 = *p; proof { assert(s4.all_text() =~= s3.all_text());\n"
-                                                   "        assert(p.recursion_limit.current == old(p).recursion_limit.current + 1 && p.recursion_limit.current <= p.recursion_limit.limit); /* C01: nesting depth is bounded by the limit */ }"),
+              ("body_start", None, "broadcast use lemma_conserved_trans_auto;"),
+              ("after", "p.bump(S!['[']);", "let ghost s3 = *p; proof { assert(s3.builder.sig() == old(p).builder.sig().push(SyntaxKind::L_BRACK)); }"),
+              ("before", "let result = parse(p);", "let ghost s4 = *p; proof { assert(p.recursion_limit.current == old(p).recursion_limit.current + 1 && p.recursion_limit.current <= p.recursion_limit.limit); /* C01: nesting depth is bounded by the limit */ }"),
               ("after", "let result = parse(p);", "let ghost s5 = *p;"),
-              ("after", "p.recursion_limit.decrement();", "let ghost s6 = *p; proof { assert(s6.all_text() =~= s5.all_text()); assert(s6.conserved(&s3)) by { assert(s4.builder == s3.builder && s4.errors == s3.errors && s6.builder == s5.builder && s6.errors == s5.errors); }; lemma_conserved_trans(&*old(p), &s3, &s6); }"),
-              ("before", "p.expect(T![']'], S![']']);", "let ghost s7 = *p; proof { if s7 != s6 { lemma_conserved_trans(&*old(p), &s6, &s7); } }"),
-              ("after", "p.expect(T![']'], S![']']);", "proof { lemma_conserved_trans(&*old(p), &s7, &*p); }"),
-              ("before", "let _guard = p.start_node(SyntaxKind::NAMED_TYPE);", "let ghost n1 = *p; proof { lemma_conserved_trans(&*old(p), &s0, &n1); }"),
-              ("after", "let _guard = p.start_node(SyntaxKind::NAMED_TYPE);", "let ghost n2 = *p; proof { lemma_conserved_trans(&*old(p), &n1, &n2); }"),
-              ("after", "let _name_node_guard = p.start_node(SyntaxKind::NAME);", "let ghost n3 = *p; proof { lemma_conserved_trans(&*old(p), &n2, &n3); }"),
-              ("after", "p.push_token(SyntaxKind::IDENT, token);", "proof { lemma_prefix_append(n3.builder.text(), token.data@); assert(p.conserved(&n3)) by { assert(p.errors@.subrange(0, n3.errors@.len() as int) =~= n3.errors@); assert(pending_text(n3.pending@) =~= Seq::<char>::empty()); }; lemma_conserved_trans(&*old(p), &n3, &*p); }"),
-              ("before", "// There may be whitespace inside a list node or between the type and the non-null `!`.", "let ghost t0 = *p; proof { assert(t0.conserved(&*old(p))); }"),
-              ("before", "// Deal with nullable types", "let ghost t1 = *p; proof { lemma_conserved_trans(&*old(p), &t0, &t1); }"),
-              ("before", "let _guard = checkpoint.wrap_node(SyntaxKind::NON_NULL_TYPE);", "let ghost t2 = *p; proof { lemma_conserved_trans(&*old(p), &t1, &t2); }"),
-              ("after", "p.eat(S![!]);", "proof { lemma_conserved_trans(&*old(p), &t2, &*p); }"),
-              ("before", "// Handle post-node commas, whitespace, comments", "let ghost t3 = *p; proof { if t3 != t1 { } else { } assert(t3.conserved(&*old(p))) by { if t3 == t1 { } else { lemma_conserved_trans(&*old(p), &t1, &t3); } } }"),
-              ("before", "Ok(())\n}", "proof { lemma_conserved_trans(&*old(p), &t3, &*p); }"),
+              ("after", "p.recursion_limit.decrement();", "let ghost s6 = *p; proof { lemma_depth_roundtrip(&s3, &s4, &s5, &s6); }"),
+              ("after", "p.expect(T![']'], S![']']);",
+               "proof { if p.clean_since(&*old(p)) {\n"
+               "    let base = old(p).builder.sig(); let inner = s5.new_sig(&s4);\n"
+               "    assert(s5.clean_since(&s4)) by { assert(s5.errors@.len() <= p.errors@.len() && old(p).errors@.len() <= s4.errors@.len()); }\n"
+               "    assert(result is Ok);\n"
+               "    lemma_list_type(inner);\n"
+               "    assert(s5.builder.sig() =~= base.push(SyntaxKind::L_BRACK) + inner);\n"
+               "    assert(p.builder.sig() =~= s5.builder.sig().push(SyntaxKind::R_BRACK));\n"
+               "    assert(p.new_sig(&*old(p)) =~= seq![SyntaxKind::L_BRACK] + inner + seq![SyntaxKind::R_BRACK]);\n"
+               "} }"),
+              ("after", "p.push_token(SyntaxKind::IDENT, token);",
+               "proof { lemma_prefix_append(old(p).builder.text() + pending_text(old(p).pending@), token.data@);\n"
+               "    assert(p.new_sig(&*old(p)) =~= seq![SyntaxKind::IDENT]); }"),
+              ("before", "if let Some(T![!]) = p.peek() {", "let ghost t1 = *p; proof { assert(t1.clean_since(&*old(p)) ==> g_nullable_type(t1.new_sig(&*old(p))) && !t1.eof_consumed()); }"),
+              ("after", "p.eat(S![!]);", "proof { if p.clean_since(&*old(p)) { lemma_non_null_type(t1.new_sig(&*old(p))); assert(p.new_sig(&*old(p)) =~= t1.new_sig(&*old(p)).push(SyntaxKind::BANG)); } }"),
+              ("before", "Ok(())\n}", "proof { if p.clean_since(&*old(p)) { lemma_non_null_type(t1.new_sig(&*old(p))); } }"),
           ]),
-    
         G(TY, "ty", [GWF, ("ensures", "conserved", "final(p).conserved(old(p))"), ("ensures", "fuel", "final(p).fuel() <= old(p).fuel()")],
           hints=[("body_start", None, "let ghost s0 = *p;")],
           ),
@@ -596,7 +633,8 @@ UNIT = {
         # conserved here (C02 is about documents); everything else is.
         G(TY, "standalone_ty", [GWF, ("requires", "fresh", "!old(p).eof_consumed()"),
                                 ("ensures", "advanced", "final(p).advanced(old(p))"), ("ensures", "fuel", "final(p).fuel() <= old(p).fuel()"),
-                                ("ensures", "missing_type_is_reported", "final(p).builder.nsig() == old(p).builder.nsig() ==> (final(p).errors@.len() > old(p).errors@.len() || !final(p).accept_errors)", ["C07"])],
+                                ("ensures", "missing_type_is_reported", "final(p).builder.nsig() == old(p).builder.nsig() ==> (final(p).errors@.len() > old(p).errors@.len() || !final(p).accept_errors)", ["C07"]),
+                                ("ensures", "no_error_means_exactly_one_type", "final(p).clean_since(old(p)) ==> g_type(final(p).new_sig(old(p)))", ["C07"])],
           hints=[("after", "p.skip_ignored();", "let ghost s1 = *p;"),
                  ("after", "p.pending.clear();", "let ghost s2 = *p; proof { assert(s2.advanced(&s1)) by { lemma_conserved_refl(&s1); }; lemma_advanced_trans(&*old(p), &s1, &s2); }"),
                  ("before", "Ok(_) => (),", "Ok(_) if false => (),") if False else ("body_end", None, "proof { }"),
@@ -676,15 +714,16 @@ UNIT = {
           hints=[("body_start", None, "broadcast use lemma_conserved_trans_auto;")]),
 
         # ---------------- standalone entry points (C07) ----------------
-        P("parse_type", [("requires", "wf", "self_in.wf()"), ("requires", "fresh", "!self_in.eof_consumed()"),
+        P("parse_type", [("requires", "wf", "self_in.wf()"), ("requires", "fresh", "!self_in.eof_consumed() && self_in.builder.sig() =~= Seq::<SyntaxKind>::empty()"),
                          ("ensures", "no_error_dropped", "tree.errors@.len() == 0 ==> self_in.errors@.len() == 0")],
           ret="tree", props=["C07", "C01"],
           rewrites=[("grammar::ty::standalone_ty(&mut self);", "standalone_ty(&mut self);", 1), MUTSELF_1, MUTSELF_2,
                     ('Rc::try_unwrap\\(this\\.builder\\)\\s*\\.expect\\(\\"More than one reference to builder left\\"\\)\\s*\\.into_inner\\(\\)', "this.builder", 1, "re")],
           hints=[("after", "this.expect_end_of_input();",
                   "let ghost errs = this.errors;\n"
-                  "proof { /* C07: no error is reported only if a type was consumed and nothing but ignored tokens is left after it */\n"
-                  "        assert(this.errors@.len() == 0 ==> this.at_end() && this.builder.nsig() > self_in.builder.nsig()); }"),
+                  "proof { /* C07: no error is reported only if the significant tokens are exactly one type reference and nothing but ignored tokens is left */\n"
+                  "        assert(this.errors@.len() == 0 ==> this.at_end() && g_type(this.builder.sig())) by { if this.errors@.len() == 0 { assert(mid.errors@.len() == 0); assert(mid.clean_since(&self_in)); assert(mid.builder.sig().skip(0) =~= mid.builder.sig()); assert(this.builder.sig() == mid.builder.sig()); } } }"),
+                 ("after", "standalone_ty(&mut this);", "let ghost mid = this;"),
                  ("before", "match builder {", "proof { assert(builder is Type && builder->Type_0.errors == errs); /* the tree reports exactly the parser's errors */ }")]),
         P("parse_selection_set", [("requires", "wf", "self_in.wf()"),
                                   ("ensures", "no_error_dropped", "tree.errors@.len() == 0 ==> self_in.errors@.len() == 0")],
